@@ -42,7 +42,7 @@ import (
 //@ func (*Seq).Clone
 //@   property C05
 //@   requires s != nil
-//@   ensures [fresh]   typeis(result, *Seq) && fresh(ref(result)) && (fresh(result.(*Seq).Seq) || len(s.Seq) == 0)
+//@   ensures [fresh]   typeis(result, *Seq) && fresh(ref(result)) && (fresh(result.(*Seq).Seq) || cap(result.(*Seq).Seq) == 0)
 //@   ensures [letters] len(result.(*Seq).Seq) == len(s.Seq) && forall k int :: 0 <= k && k < len(s.Seq) ==> result.(*Seq).Seq[k] == s.Seq[k]
 //@   ensures [annot]   result.(*Seq).Annotation == s.Annotation
 //@   assigns fresh
@@ -127,7 +127,7 @@ func verifLemmaCloneIndependent2(s *Seq, i int, l alphabet.QLetter) (c *Seq) {
 //@ func (*QSeq).Clone
 //@   property C05
 //@   requires s != nil
-//@   ensures [fresh]   typeis(result, *QSeq) && fresh(ref(result)) && (fresh(result.(*QSeq).Seq) || len(s.Seq) == 0)
+//@   ensures [fresh]   typeis(result, *QSeq) && fresh(ref(result)) && (fresh(result.(*QSeq).Seq) || cap(result.(*QSeq).Seq) == 0)
 //@   ensures [letters] len(result.(*QSeq).Seq) == len(s.Seq) && forall k int :: 0 <= k && k < len(s.Seq) ==> result.(*QSeq).Seq[k] == s.Seq[k]
 //@   ensures [annot]   result.(*QSeq).Annotation == s.Annotation && result.(*QSeq).Threshold == s.Threshold && result.(*QSeq).Encode == s.Encode
 //@   assigns fresh
